@@ -210,6 +210,14 @@ func (r *recorder) GenerationEvaluate(_ context.Context, pop *genetics.Populatio
 	}
 	switch r.s.evalAt(t, g) {
 	case evFail:
+		if (t+g)%2 == 0 {
+			// an evaluator that reports a winner AND fails in the same call (winner found, saving it failed): the error
+			// still ends the run
+			epoch.FillPopulationStatistics(pop)
+			epoch.Solved = true
+			epoch.WinnerNodes = len(epoch.Champion.Genotype.Nodes)
+			epoch.WinnerGenes = len(epoch.Champion.Genotype.Genes)
+		}
 		return &scriptedEvalError{t: t, g: g, wraps: []error{nil, context.Canceled, context.DeadlineExceeded}[(t+2*g)%3]}
 	case evSolved:
 		epoch.FillPopulationStatistics(pop)
